@@ -215,11 +215,11 @@ Example c01_p2p_ex :
   let s0 := mkStore true 2 0 0 0 0 [mkSub 1 31 31 0 0 0 false; mkSub 2 31 31 0 0 0 true]
                     [mkMsg 1 1 11 0; mkMsg 2 2 12 0] [] [(1%N, 47%N); (2%N, 47%N)] in
   let r := lrun LP2P [(1%N, 1%N); (2%N, 2%N)] [] 1%N 2%N (mkLS s0 None 0)
-             [(NoFault, LSub 1); (NoFault, LPub 1 7 false); (NoFault, LLeave 1 false); (NoFault, LUnload);
-              (NoFault, LSub 2); (FailAt 2, LPub 2 8 false); (NoFault, LPub 2 9 false)] in
+             [(NoFault, LSub 1 false); (NoFault, LPub 1 7 false); (NoFault, LLeave 1 false); (NoFault, LUnload);
+              (NoFault, LSub 2 false); (FailAt 2, LPub 2 8 false); (NoFault, LPub 2 9 false)] in
   map lout_seqs (snd r) = [[]; [3; 3]; []; []; []; []; [4; 4]] /\ t_seqid (x_st (fst r)) = 4 /\
   sinv s0 /\ keeps_row LP2P [(1%N, 1%N); (2%N, 2%N)] [] 1%N 2%N (mkLS s0 None 0)
-             [(NoFault, LSub 1); (NoFault, LPub 1 7 false); (NoFault, LLeave 1 false); (NoFault, LUnload)].
+             [(NoFault, LSub 1 false); (NoFault, LPub 1 7 false); (NoFault, LLeave 1 false); (NoFault, LUnload)].
 Proof.
   cbv zeta. split; [vm_compute; reflexivity|]. split; [vm_compute; reflexivity|]. split.
   - unfold sinv, seqs. cbn [msgs map m_seq t_seqid t_exists]. split; [|split; [|split]].
